@@ -1571,7 +1571,7 @@ class ScalarDistribution(BaseDistribution):
         else:
             # Must be valid and have positive probability.
             try:
-                z = self[outcome] > self.ops.zero
+                z = not self.ops.is_null_exact(self[outcome])
             except InvalidOutcome:
                 z = False
 
